@@ -268,6 +268,10 @@ def gen_openml(rng, index):
             d = rng.randrange(n_data)
             src = ["task", tasks[d]["id"]] if rng.random() < 0.3 else ["data", datasets[d]["id"]]
             reads.append({"src": src, "consume": weighted(rng, [("all", 4), (rng.randrange(0, 4), 1)]), "drop_missing": rng.random() < 0.7})
+            if rng.random() < 0.12 and src[0] == "data":
+                # read as a LOGGED environment (Environments.from_openml(...).logged(policy)) and usually left early, as the experiment's peek does
+                reads[-1]["logged"] = True
+                reads[-1]["consume"] = weighted(rng, [(1, 3), (rng.randrange(1, 4), 1), ("all", 1)])
         callers.append(reads)
         if faulty:
             for k in range(12):
@@ -303,9 +307,18 @@ def reference(cfg, server):
         for reads in cfg["callers"]:
             for r in reads:
                 key = json.dumps([r["src"], r["drop_missing"]])
+                if r.get("logged") and ("L" + key) not in ref:
+                    # what the same logged read does without faults, cache or concurrency (some generated data sets cannot be logged at all:
+                    # regression labels have no discrete actions, a missing nominal value cannot be one-hot encoded ...)
+                    import coba as cb
+                    try:
+                        n = sum(1 for _ in cb.Environments.from_openml(data_id=r["src"][1], drop_missing=r["drop_missing"]).logged(cb.RandomLearner(seed=1), seed=2)[0].read())
+                        ref["L" + key] = n
+                    except Exception as e:
+                        ref["L" + key] = ("raises", type(e).__name__)
                 if key not in ref:
                     try:
-                        ref[key] = [_canon(x) for x in _source(r).read()]
+                        ref[key] = [_canon(x) for x in _source({k: v for k, v in r.items() if k != "logged"}).read()]
                     except Exception as e:       # (e.g. every row has a missing value and is dropped -> nothing to label: fine, same for everybody)
                         ref[key] = ("raises", type(e).__name__)
     finally:
@@ -339,6 +352,18 @@ def run_openml(cfg, seed, choices, make_sim, run_sim, install_gzip_shim, sig_fn)
             before = len(server.delivered.get(cidx, []))
             it = None
             try:
+                if r.get("logged"):
+                    import coba as cb
+                    sim.count("reach.openml_read_through_logged_environment")
+                    it = iter(cb.Environments.from_openml(data_id=r["src"][1], drop_missing=r["drop_missing"]).logged(cb.RandomLearner(seed=1), seed=2)[0].read())
+                    n = 0
+                    for _ in it:
+                        n += 1
+                        if r["consume"] != "all" and n >= r["consume"]:
+                            break
+                    it.close()
+                    records.append((phase, cidx, ri, "logged", n, None))
+                    continue
                 it = iter(_source(r).read())
                 if r["consume"] == "all":
                     rows = [_canon(x) for x in it]
@@ -400,9 +425,15 @@ def run_openml(cfg, seed, choices, make_sim, run_sim, install_gzip_shim, sig_fn)
             sim.block(lambda: t.done, "join final reader")
             state["held2"] = {i: v for i, v in enumerate(array._core.data) if v != 0}
 
+    import gc
+    # the cyclic collector is off while the callers run: whether a lock or a permit is given back must not depend on when a collection
+    # happens to run (a worker blocked in a C call - acquire(), get(), sleep() - executes no bytecode and never collects)
+    gc.disable()
     try:
         outcome = run_sim(sim, main)
     finally:
+        pass  # (the runner keeps the cyclic collector off for the whole run: sim/runner.py _fresh)
+        gc.collect()
         if tmpdir is not None:
             shutil.rmtree(tmpdir, ignore_errors=True)
 
@@ -447,6 +478,8 @@ def _oracle(cfg, sim, outcome, ref, records, state):
                         seen.add(k); order.append(k)
             want = ref[order[ri]]
         who = f"caller {cidx} read {ri} ({r['src'] if r else 'final reader'})"
+        if kind == "logged":
+            continue         # (what a logged read yields is not compared here: the clauses at stake are the locks and the permit)
         if kind in ("rows", "prefix"):
             if isinstance(want, tuple) and kind == "prefix" and not payload:
                 pass       # (a reader that never asked for a row never got to the point where every read of this data set fails)
@@ -462,6 +495,10 @@ def _oracle(cfg, sim, outcome, ref, records, state):
             ename, etext = payload
             if isinstance(want, tuple) and ename == want[1]:
                 continue
+            if r is not None and r.get("logged"):
+                wl = ref.get("L" + json.dumps([r["src"], r["drop_missing"]]))
+                if isinstance(wl, tuple) and wl[1] == ename:
+                    continue
             if phase == "p2":
                 out.append(vio("poisoned_cache", f"openml: after all faults had stopped the final reader's read {ri} raised {ename}: {etext[:200]}",
                                key=f"openml:poisoned_cache:{ename}"))
